@@ -105,6 +105,11 @@ func (sfc *StructFieldsCopy) createFieldSnippet(f *types.Var) snippet.Snippet {
 			// always gen
 			fc.HasDeepCopyInto = true
 			fc.HasDeepCopy = true
+
+			// what will be generated decided by the underlying type only,
+			// should not depend on whether the generated methods are loaded or not
+			_, isMap := x.Underlying().(*types.Map)
+			fc.PtrResultOrParam = !isMap
 		}
 		if fc.PtrResultOrParam && fc.HasDeepCopyInto {
 			return snippet.T(`
